@@ -158,6 +158,9 @@ func (st *State) runLoop(lp *loopParts) []Outcome {
 			for _, w := range rec.writes[n] {
 				if termIsOlderThan(w, counterBefore) {
 					ws = append(ws, w)
+				} else if w2 := fc.expandDefs(w, 0); termIsOlderThan(w2, counterBefore) && !mentionsHeaps(w2, st.heap, rec.heaps) {
+					// defined from loop-invariant state only (e.g. a slice header re-read from an unmodified field)
+					ws = append(ws, w2)
 				} else if !fc.isFreshTerm(w) {
 					ok = false
 				}
@@ -570,4 +573,38 @@ func (st *State) decodeAt(c, p, e string) (r, w string) {
 	rl := sIte(sCmp("<", r, "128"), "1", sIte(sCmp("<", r, "2048"), "2", sIte(sCmp("<", r, "65536"), "3", "4")))
 	st.assume(sImp(nonEmpty, sOr(sEq(w, rl), sAnd(sEq(r, "65533"), sEq(w, "1")))))
 	return r, w
+}
+
+var symRe = regexp.MustCompile(`g_[A-Za-z0-9_.!]+_\d+`)
+
+// expandDefs replaces defined constants by their definitions (bounded depth).
+func (fc *FuncCtx) expandDefs(t string, depth int) string {
+	if depth > 6 {
+		return t
+	}
+	changed := false
+	out := symRe.ReplaceAllStringFunc(t, func(m string) string {
+		if d, ok := fc.defs[m]; ok {
+			changed = true
+			return d
+		}
+		return m
+	})
+	if changed {
+		return fc.expandDefs(out, depth+1)
+	}
+	return out
+}
+
+// mentionsHeaps: does the term read a heap that the loop modifies?
+func mentionsHeaps(t string, cur map[string]string, modified map[string]bool) bool {
+	for name := range modified {
+		if h, ok := cur[name]; ok && strings.Contains(t, h) {
+			return true
+		}
+		if strings.Contains(t, "H_"+sanitize(name)+"_0") {
+			return true
+		}
+	}
+	return false
 }
